@@ -16,7 +16,10 @@ VERIF = os.path.dirname(os.path.dirname(os.path.abspath(__file__)))
 REPO = os.environ.get("AU_REPO", "/repo")
 LEAN = os.path.join(VERIF, "lean")
 WORKROOT = os.path.join(VERIF, ".work")
-EVID = os.path.join(VERIF, "evidence")
+# evidence under /verif/evidence describes runs against /repo itself; runs against a private mutated copy
+# (AU_REPO=..., tools/seedtest.sh) write theirs to .work so the committed evidence is never overwritten by them
+EVID = os.path.join(VERIF, "evidence") if "AU_REPO" not in os.environ else os.path.join(VERIF, ".work", "evidence_seed")
+os.makedirs(EVID, exist_ok=True)
 AU_INC = os.path.join(REPO, "au", "code")
 DRIVER = os.path.join(LEAN, ".lake", "build", "bin", "audriver")
 NCPU = os.cpu_count() or 4
@@ -207,15 +210,31 @@ class Driver:
     """The compiled Lean model, driven through its line protocol."""
 
     def __init__(self):
-        if not os.path.exists(DRIVER):
+        # a concurrent `lake build` (another check) relinks .lake/build/bin/audriver, so the binary can vanish
+        # mid-run: run a private copy, taken under the lake lock
+        os.makedirs(os.path.join(WORKROOT, "drivers"), exist_ok=True)
+        self.exe = os.path.join(WORKROOT, "drivers", f"audriver_{os.getpid()}_{id(self)}")
+        for attempt in range(3):
+            with LakeLock():
+                if os.path.exists(DRIVER):
+                    shutil.copy2(DRIVER, self.exe)
+                    break
             ok, out = lake_build(["audriver"])
             if not ok:
                 raise RuntimeError("audriver does not build:\n" + out[-3000:])
+        else:
+            raise RuntimeError("audriver is not available")
+
+    def __del__(self):
+        try:
+            os.remove(self.exe)
+        except OSError:
+            pass
 
     def ask(self, lines):
         if not lines:
             return []
-        rc, out, err = run([DRIVER], inp="\n".join(lines) + "\n", timeout=3600)
+        rc, out, err = run([self.exe], inp="\n".join(lines) + "\n", timeout=3600)
         res = out.split("\n")
         if res and res[-1] == "":
             res.pop()
@@ -244,19 +263,46 @@ CONFIGS = [("g++", "c++14"), ("g++", "c++17"), ("g++", "c++20"),
 SAN_GCC = ["-fsanitize=address,undefined", "-fsanitize-recover=undefined", "-fno-omit-frame-pointer"]
 SAN_CLANG = ["-fsanitize=address,undefined,unsigned-integer-overflow",
              "-fsanitize-recover=undefined,unsigned-integer-overflow", "-fno-omit-frame-pointer"]
+# Exact-count build (clang only): every execution of an undefined operation / unsigned wrap calls the harness's
+# __ubsan_on_report (harness/ubsan_exact.cc); the full runtimes report each source location once per process.
+SAN_EXACT = ["-fsanitize=undefined,unsigned-integer-overflow", "-fsanitize-minimal-runtime", "-fsanitize-recover=all",
+             "-fno-sanitize-link-runtime", "-fno-omit-frame-pointer"]
+EXACT_HANDLERS = os.path.join(VERIF, "harness", "ubsan_exact.cc")
+EXACT = "clang++-14"
+
+
+def san_flags(compiler, san=True):
+    if san == "exact" or compiler == "exact":
+        return SAN_EXACT
+    return SAN_CLANG if compiler.startswith("clang") else SAN_GCC
+
+
+def link_cmd(compiler, objs, exe, extra=()):
+    """Link command for objects compiled by cxx(..., compiler=compiler, extra=["-c"]); compiler may be "exact"."""
+    if compiler == "exact":
+        return [EXACT] + SAN_EXACT + list(extra) + list(objs) + [EXACT_HANDLERS, "-o", exe]
+    return [compiler] + san_flags(compiler) + list(extra) + list(objs) + ["-o", exe]
+
+
 UBSAN_ENV = {"UBSAN_OPTIONS": "suppress_equal_pcs=0:print_summary=0", "ASAN_OPTIONS": "detect_leaks=0"}
 
 
 def cxx(src, out, compiler="g++", std="c++14", opt="-O1", san=True, extra=(), syntax_only=False,
         timeout=1800):
     cmd = [compiler, f"-std={std}", opt, "-I", AU_INC, "-ffp-contract=off", "-w"]
+    if compiler == "exact" and san:
+        san = "exact"
+    if san == "exact" or compiler == "exact":
+        compiler = cmd[0] = EXACT
     if san:
-        cmd += SAN_CLANG if compiler.startswith("clang") else SAN_GCC
+        cmd += san_flags(compiler, san)
     cmd += list(extra)
     if syntax_only:
         cmd += ["-fsyntax-only", src]
     else:
         cmd += [src, "-o", out]
+        if san == "exact" and "-c" not in extra:
+            cmd += [EXACT_HANDLERS]
     rc, o, e = run(cmd, timeout=timeout)
     return rc, o + e
 
